@@ -38,6 +38,7 @@ static unsigned char *base; static size_t baselen;
 static char bad[512], errs[512];
 static unsigned stampk;
 static int fatal_asan;
+static int strict;	/* FILEOPX_STRICT=1: the filesystem has plenty of free space, so no write / set_size / punch may fail */
 
 void __asan_on_error(void) { fatal_asan = 1; }
 
@@ -116,6 +117,7 @@ static void do_write(ext2_file_t f, int i, unsigned long long off, unsigned len,
 	if (e) { adderr(op, e); M[i].degraded = 1; return; }
 	e = ext2fs_file_write(f, buf, len, &written);
 	if (e) adderr(op, e);
+	if (e && strict) setbad("%s: write of %u bytes at %llu failed with %ld although the filesystem has free space", op, len, off, (long) e);
 	if (written > len) { setbad("%s: write reports %u bytes written of %u", op, written, len); return; }
 	if (!e && written != len) setbad("%s: write returned success but wrote %u of %u bytes", op, written, len);
 	memcpy(M[i].d + off, buf, written);
@@ -170,6 +172,7 @@ static void apply(char *op)
 		if (e) { setbad("%s: open failed: %ld", name, (long) e); return; }
 		if (sz > MAXSZ) { ext2fs_file_close(f); return; }
 		e = ext2fs_file_set_size2(f, sz);
+		if (e && strict) setbad("%s: set_size failed with %ld", name, (long) e);
 		if (e) { adderr(name, e); M[i].degraded = 1; }
 		else {
 			if (sz < M[i].size) memset(M[i].d + sz, 0, M[i].size - sz);
@@ -181,6 +184,7 @@ static void apply(char *op)
 		long long s0 = atoll(t[2]), e0 = atoll(t[3]); errcode_t e; unsigned bs = fs->blocksize;
 		unsigned long long from = (unsigned long long) s0 * bs, to = e0 < 0 ? MAXSZ : (unsigned long long)(e0 + 1) * bs;
 		e = ext2fs_punch(fs, ino[i], NULL, NULL, s0, e0 < 0 ? ~0ULL : (blk64_t) e0);
+		if (e && strict) setbad("%s: punch failed with %ld", name, (long) e);
 		if (e) { adderr(name, e); M[i].degraded = 1; }
 		else if (from < MAXSZ) { if (to > MAXSZ) to = MAXSZ; if (to > from) memset(M[i].d + from, 0, to - from); }
 	} else if (t[0][0] == 'a' && n == 5) {
@@ -211,6 +215,7 @@ int main(int argc, char **argv)
 	char line[4096]; const char *keep = NULL; FILE *bf; int i;
 	if (argc < 3) { fprintf(stderr, "usage: fileopx <base image> <scratch file> [--keep dir]\n"); return 2; }
 	scratch = argv[2];
+	strict = getenv("FILEOPX_STRICT") != NULL;
 	if (argc >= 5 && !strcmp(argv[3], "--keep")) keep = argv[4];
 	bf = fopen(argv[1], "rb"); if (!bf) { perror(argv[1]); return 2; }
 	fseek(bf, 0, SEEK_END); baselen = ftell(bf); rewind(bf); base = malloc(baselen); if (fread(base, 1, baselen, bf) != baselen) return 2; fclose(bf);
